@@ -129,8 +129,9 @@ func vPanics(f func()) (p bool) {
 
 // vSkipKnown reports whether the region of a recorded known finding is to be
 // left out of this run (the check runs that region separately, pinned to the
-// recorded input). Natively the region is never skipped.
-func vSkipKnown(id string) bool { return false }
+// recorded input). Natively the region is skipped only when the replay file says so (validation of
+// passing paths); the replay of a counterexample never skips.
+func vSkipKnown(id string) bool { return vState.env["skip."+id] == "1" }
 
 // vCRC is the reference CRC-32 (IEEE) of b; under the engine a fold of an uninterpreted step function
 // when bytes are symbolic, so equality of two CRCs means equality of the byte sequences.
